@@ -75,12 +75,200 @@ def is_hole(stmt, name=None):
         and (name is None or stmt.value.id == name)
 
 
+# ---------------------------------------------------------------- generic drivers as event automata
+from .lts import Classifier, extract, equivalent, compile_spec, seq, alt, star, lit
+
+
+class _DriverEvents(Classifier):
+    """what a driver does, observed as events: the entry cursor recorded for nested packets, the
+    loop over get_fields(), each field's call with its three outcomes, the stack entry added to
+    a PacketError that passes through, the PacketError built for any other failure, the sync
+    hooks, the returned cursor / buffer"""
+
+    def __init__(self, d, layout):
+        self.d, self.layout = d, layout
+        a = d.node.args
+        self.params = [x.arg for x in a.posonlyargs + a.args]
+        self.PKT = d.pkt
+        self.K = a.kwarg.arg if a.kwarg is not None else None
+        self.unpack = d.kind == 'unpack'
+        self.RAW = self.params[1] if self.unpack and len(self.params) > 2 else None
+        self.CUR = (self.params[2] if len(self.params) > 2 else 'offset') if self.unpack else None
+        self.BUF = None if self.unpack else (self.params[1] if len(self.params) > 1 else 'fragments')
+
+    # -- helpers
+    def is_cursor(self, t):
+        if self.unpack:
+            return t == self.CUR or t == '<ev field>' or t.startswith(self.CUR + '@L')
+        return t == '%s.current_offset' % self.BUF
+
+    def clsname(self, t):
+        return t in ('%s.__class__.__name__' % self.PKT, 'type(%s).__name__' % self.PKT)
+
+    def item_slot(self, e):
+        """(loop item symbol, index) for ``<item L..>[i]``"""
+        if isinstance(e, ast.Subscript) and isinstance(e.value, ast.Name) and e.value.id.startswith('<item L') and isinstance(e.slice, ast.Constant):
+            return e.value.id, e.slice.value
+        return None
+
+    def call(self, c):
+        f = c.func
+        ft = canon(f)
+        if ft in ('%s.get_fields' % self.PKT, '%s.__class__.get_fields' % self.PKT) and not c.args:
+            return ('get-fields', ())
+        for which in ('after_unpack', 'before_pack'):
+            if ft == '%s.get_sync_%s_methods' % (self.PKT, which):
+                return ('get-hooks[%s]' % which.replace('_', '-'), ())
+        slot = self.item_slot(f)
+        if slot is not None:
+            kw = {k.arg: canon(k.value) for k in c.keywords if k.arg}
+            pos = [canon(a) for a in c.args]
+            names = ['pkt', 'raw', 'offset'] if self.unpack else ['pkt', 'fragments']
+            for n_, v_ in zip(names, pos):
+                kw.setdefault(n_, v_)
+            star = [canon(k.value) for k in c.keywords if k.arg is None]
+            wrong = []
+            if slot[1] != self.layout['unpack' if self.unpack else 'pack']:
+                wrong.append('tuple slot %s' % slot[1])
+            if kw.get('pkt') != self.PKT:
+                wrong.append('pkt=%s' % kw.get('pkt'))
+            if self.unpack:
+                if kw.get('raw') != self.RAW:
+                    wrong.append('raw=%s' % kw.get('raw'))
+                if not self.is_cursor(kw.get('offset') or ''):
+                    wrong.append('offset=%s' % kw.get('offset'))
+            elif kw.get('fragments') != self.BUF:
+                wrong.append('fragments=%s' % kw.get('fragments'))
+            if star != [self.K]:
+                wrong.append('**%s' % star)
+            return ('field' if not wrong else 'field[%s]' % ', '.join(wrong)[:80], ('ok', 'exc:PacketError', 'exc:Exception'))
+        if isinstance(f, ast.Name) and f.id.startswith('<item L'):
+            good = len(c.args) == 1 and canon(c.args[0]) == self.PKT and not c.keywords
+            return ('hook' if good else 'hook[%s]' % canon(c)[:40], ())
+        if isinstance(f, ast.Attribute) and f.attr == 'add_parent_field_and_packet':
+            a = args_of(c, ['offset', 'field_name', 'packet_class_name'])
+            wrong = []
+            if not canon(f.value).startswith('<exc PacketError'):
+                wrong.append('on %s' % canon(f.value))
+            if a is None:
+                wrong.append('arguments')
+            else:
+                if not self.is_cursor(canon(a['offset'])):
+                    wrong.append('offset %s' % canon(a['offset']))
+                sl = self.item_slot(a['field_name'])
+                if sl is None or sl[1] != self.layout['name']:
+                    wrong.append('field %s' % canon(a['field_name']))
+                if not self.clsname(canon(a['packet_class_name'])):
+                    wrong.append('class %s' % canon(a['packet_class_name']))
+            return ('add-parent' if not wrong else 'add-parent[%s]' % ', '.join(wrong)[:80], ())
+        return None
+
+    def store(self, target, value):
+        if isinstance(target, ast.Subscript) and isinstance(target.slice, ast.Constant) and target.slice.value == 'innermost-pkt-pos':
+            v = canon(value)
+            good = canon(target.value) == self.K and (v == self.CUR if self.unpack else v == '%s.current_offset' % self.BUF)
+            return 'mark-innermost' if good else 'mark-innermost[%s[...] = %s]' % (canon(target.value), v[:40])
+        return None
+
+    def truth(self, text, e):
+        if isinstance(e, ast.Call) and isinstance(e.func, ast.Name) and e.func.id == 'isinstance' and len(e.args) == 2 \
+                and isinstance(e.args[0], ast.Name) and e.args[0].id.startswith('<exc ') and canon(e.args[1]) == 'PacketError':
+            return e.args[0].id == '<exc PacketError>'
+        return None
+
+    def exc(self, v):
+        if isinstance(v, ast.Call) and call_name(v) == 'PacketError':
+            a = args_of(v, ['was_error_found_in_unpacking_phase', 'field_name', 'packet_class_name', 'offset', 'original_error_message'])
+            wrong = []
+            if a is None:
+                wrong.append('arguments')
+            else:
+                ph = a['was_error_found_in_unpacking_phase']
+                if not (isinstance(ph, ast.Constant) and ph.value is self.unpack):
+                    wrong.append('phase %s' % canon(ph))
+                sl = self.item_slot(a['field_name'])
+                if sl is None or sl[1] != self.layout['name']:
+                    wrong.append('field %s' % canon(a['field_name']))
+                if not self.clsname(canon(a['packet_class_name'])):
+                    wrong.append('class %s' % canon(a['packet_class_name']))
+                if not self.is_cursor(canon(a['offset'])):
+                    wrong.append('offset %s' % canon(a['offset']))
+                m = canon(a['original_error_message'])
+                if not (m.startswith('str(<exc ') or m.startswith('repr(<exc ')):
+                    wrong.append('message %s' % m[:30])
+            return 'PacketError(new)' if not wrong else 'PacketError(new; %s)' % ', '.join(wrong)[:80]
+        return Classifier.exc(self, v)
+
+    def ret(self, v):
+        if v is None:
+            return 'None'
+        t = canon(v)
+        if self.unpack:
+            return 'cursor' if self.is_cursor(t) else t[:40]
+        return 'buffer' if t == self.BUF else t[:40]
+
+
+def _driver_spec(kind):
+    hooks = lambda which: seq(lit('get-hooks[%s]' % which), lit('for[<ev get-hooks[%s]>]' % which), star(seq(lit('next'), lit('hook'))), lit('end'))
+    fails = [seq(lit('next'), lit('field:exc:PacketError'), lit('add-parent'), lit('raise[PacketError]')),
+             seq(lit('next'), lit('field:exc:Exception'), lit('raise[PacketError(new)]'))]
+    loop = seq(lit('mark-innermost'), lit('get-fields'), lit('for[<ev get-fields>]'), star(seq(lit('next'), lit('field:ok'))))
+    if kind == 'unpack':
+        return seq(loop, alt(seq(lit('end'), hooks('after-unpack'), lit('return[cursor]')), *fails))
+    return seq(hooks('before-pack'), loop, alt(seq(lit('end'), lit('return[buffer]')), *fails))
+
+
+_GENERIC = {}
+
+
+def generic_verdict(ctx, d):
+    """(True | False | None, statement, reason) for a generic driver, decided once per run"""
+    key = (id(ctx.repo), d.kind)
+    if key in _GENERIC:
+        return _GENERIC[key]
+    try:
+        layout = fields_tuple_layout(ctx.repo)
+        code = extract(d.node, _DriverEvents(d, layout))
+        diff = equivalent(code, compile_spec(_driver_spec(d.kind)))
+    except Undecided as e:
+        res = (None, d.label, str(e))
+        _GENERIC[key] = res
+        return res
+    if diff is None:
+        res = (True, '%s: event language' % d.label,
+               'entry cursor recorded, every get_fields() entry called in order with (pkt, %s, **k), a PacketError passing through gets (cursor, field, class) added and is re-raised, any other failure becomes PacketError(%s, field, class, cursor, message), hooks %s, %s returned'
+               % ('raw, cursor' if d.kind == 'unpack' else 'buffer', d.kind == 'unpack', 'after the last field' if d.kind == 'unpack' else 'before the first field', 'the end cursor' if d.kind == 'unpack' else 'the buffer'))
+    else:
+        trace, which = diff
+        if which == 'only-first':
+            why = 'the driver can do [%s] after [%s]; the error / ordering discipline does not allow it there' % (trace[-1], ' '.join(trace[:-1]))
+        else:
+            why = 'after [%s] the discipline requires [%s], which the driver cannot do there' % (' '.join(trace[:-1]), trace[-1])
+        res = (False, '%s: %s' % (d.label, ' '.join(trace)[:300]), why)
+    _GENERIC.clear()
+    _GENERIC[key] = res
+    return res
+
+
+def report_generic(ctx, rule, d, clause=''):
+    ok, st, why = generic_verdict(ctx, d)
+    if ok is True:
+        ctx.holds(rule, d.where, st, why, d.node.lineno, clause=clause)
+    elif ok is False:
+        ctx.violation(rule, d.where, st, why, d.node.lineno, clause=clause)
+    else:
+        ctx.undecided(rule, d.where, st, why, d.node.lineno, clause=clause)
+    return ok
+
+
 # ---------------------------------------------------------------- R7 handlers
 
 def check_handlers(ctx, rule, d):
     """(a) handler 1 (PacketError): add_parent_field_and_packet(cursor, name,
     class-name) then re-raise; handler 2 (Exception): raise PacketError(phase,
     name, class-name, cursor, str(e)); phase True in unpack, False in pack."""
+    if d.origin == 'generic':
+        return report_generic(ctx, rule, d)
     tr = d.try_node
     w = d.where
     if tr is None:
@@ -208,6 +396,8 @@ def field_calls(d):
 
 def check_try_span(ctx, rule, d):
     """every field call of the driver is inside the try"""
+    if d.origin == 'generic':
+        return report_generic(ctx, rule, d)
     w = d.where
     inside = field_calls(d)
     outside = []
@@ -226,6 +416,9 @@ def generic_loop_shape(ctx, rule, d):
     """generic loop: ``for name, f, pack, _ in X.get_fields(): pack(pkt=X, fragments=fragments, **k)``
     resp. ``offset = unpack(pkt=X, raw=raw, offset=offset, **k)``.  Returns dict
     describing the call, or None (reported)."""
+    if d.origin == 'generic':
+        report_generic(ctx, rule, d)
+        return None
     w = d.where
     loops = field_calls(d)
     if len(loops) != 1:
@@ -359,6 +552,8 @@ def check_call_signature(ctx, rule, d, shape, layout, where, label):
 
 def check_innermost(ctx, rule, d):
     """``k['innermost-pkt-pos'] = <entry cursor>`` before the first field call"""
+    if d.origin == 'generic':
+        return report_generic(ctx, rule, d)
     w = d.where
     found = None
     for s in d.pre:
@@ -433,6 +628,8 @@ def sync_sites(d):
 def check_hooks_order(ctx, rule, d):
     """pack: every before-pack hook runs before the first field pack;
     unpack: after-unpack hooks run after the last field"""
+    if d.origin == 'generic':
+        return report_generic(ctx, rule, d)
     w = d.where
     sites = sync_sites(d)
     want_getter = 'get_sync_before_pack_methods' if d.kind == 'pack' else 'get_sync_after_unpack_methods'
@@ -484,12 +681,15 @@ def check_hooks_wrapped(ctx, rule, d):
             continue
         st = '%s: %s' % (d.label, stmt_text(s))
         if pos in ('pre', 'post'):
-            ctx.violation(rule, w, st, 'descriptor sync hooks run outside the try: a failing hook (user function, len() of a non-sized value) escapes as a bare exception instead of PacketError', s.lineno)
+            ctx.violation(rule, w, st, 'descriptor sync hooks run outside the try: a failing hook (user function, len() of a non-sized value) escapes as a bare exception instead of PacketError', s.lineno,
+                          key='%s: descriptor sync hooks run outside the try' % d.label)
         else:
             ctx.holds(rule, w, st, 'sync hooks run inside the try', s.lineno)
 
 
 def check_return(ctx, rule, d):
+    if d.origin == 'generic':
+        return report_generic(ctx, rule, d)
     w = d.where
     rets = [s for s in d.post if isinstance(s, ast.Return)]
     want = 'offset' if d.kind == 'unpack' else 'fragments'
